@@ -84,6 +84,12 @@ def gen(rng: Any, prop: str, tier: str) -> dict[str, Any]:
     if two:
         g.connect("s1", rng.choice(["DB1", "db1"]), rng.choice(["S1", "S2", "s2"]))
     n = rng.randint(3, 12)
+    if rng.random() < (0.5 if hazards["multi_call_statement"] else 0.15):
+        # a second database made by statement early on, so that later statements reach across databases
+        g.exec("s0", {"t": "create_db", "name": "DB2"})
+        g.exec("s0", {"t": "create_schema", "db": "DB2", "name": "S1"})
+        if hazards["multi_call_statement"]:
+            g.exec("s0", {"t": "create_table", "ref": ["DB2", "S1", "TX"], "cols": [["A", "INT"], ["B", "VARCHAR(20)"]], "comment": f"c{g.fresh()}"})
     txn_owner: str | None = None
     vtype = "VARCHAR(20)" if hazards["multi_call_statement"] else "INT"  # any text column makes CREATE TABLE a multi-call statement
     while len(g.ops) < n + len(sids):
@@ -101,11 +107,14 @@ def gen(rng: Any, prop: str, tier: str) -> dict[str, Any]:
         dbs = m.sessions[sid]["txn"] if in_txn else m.dbs
         tables = [(d, s, t) for d in sorted(dbs) for s in sorted(dbs[d]) for t in sorted(dbs[d][s]["tables"])]
         kind = rng.choices(["create", "insert", "update", "delete", "txn", "create_db", "create_schema", "view", "drop", "comment", "merge", "write_pandas"],
-                           [8 if len(tables) < 2 else 3, 12, 4, 3, 7, 1, 1, 1, 1, 2 if hazards["multi_call_statement"] else 0, 5 if hazards["multi_call_statement"] else 0, 2 if not hazards["multi_call_statement"] else 0])[0]
+                           [8 if len(tables) < 2 else 3, 12, 4, 3, 7, 3 if hazards["multi_call_statement"] else 1, 1, 1, 1, 2 if hazards["multi_call_statement"] else 0, 5 if hazards["multi_call_statement"] else 0, 2 if not hazards["multi_call_statement"] else 0])[0]
         cd, cs = m.session_ctx(sid)
         if kind == "create" or (not tables and kind in ("insert", "update", "delete", "view", "drop", "comment", "merge")):
             free = [t for t in ("T1", "T2", "T3") if (cd, cs, t) not in tables] or ["T1"]
-            st: dict[str, Any] = {"t": "create_table", "ref": [None, None, rng.choice(free)], "cols": [["A", "INT"], ["B", vtype]], "or_replace": True}
+            ref: list[Any] = [None, None, rng.choice(free)]
+            if "DB2" in dbs and "S1" in dbs["DB2"] and not in_txn and rng.random() < 0.5:
+                ref = ["DB2", "S1", rng.choice(["T1", "T2"])]  # a table (and its Snowflake-side metadata) in a database that is not the session's current one
+            st: dict[str, Any] = {"t": "create_table", "ref": ref, "cols": [["A", "INT"], ["B", vtype]], "or_replace": True}
             if hazards["multi_call_statement"] and rng.random() < 0.6:
                 st["comment"] = f"c{g.fresh()}"
             g.exec(sid, st)
